@@ -8,6 +8,7 @@ import (
 	"path/filepath"
 	"sort"
 	"strings"
+	"time"
 
 	"google.golang.org/protobuf/proto"
 	"google.golang.org/protobuf/types/descriptorpb"
@@ -59,7 +60,7 @@ func runGenProp(c *fw.Ctx, prop string) int {
 	if c.Tier == "thorough" {
 		c.LeanChecker(prop)
 	}
-	return c.Finish(genRules[prop]+"; corpus: proto3 scalars/optionals/packed/unpacked/nested+recursive/oneofs/big field numbers, proto3 maps (11 key kinds, 17 value kinds), proto2 optional/required/repeated/packed/oneof/maps, proto2 extensions, well-known-type imports, special names, `reserved` numbers / ranges / names (proto3 and proto2, nested, next to extension ranges, `to max`, a message with nothing but reserved numbers); variants: google v2, gogo, golang v1 API with a file per message, google v2 with unsafe decoding, and — for every boolean option found in the generator's source (flags.BoolVar) that these do not cover — google v2 and golang v1 API with a file per message with that option switched on, for the schemas whose generated code the option changes (coverage: generator_bool_options_discovered, generator_option_variants_with_other_code_than_the_base_variant)",
+	return c.Finish(genRules[prop]+"; corpus: proto3 scalars/optionals/packed/unpacked/nested+recursive/oneofs/big field numbers, proto3 maps (11 key kinds, 17 value kinds), proto2 optional/required/repeated/packed/oneof/maps, proto2 extensions, well-known-type imports, special names, `reserved` numbers / ranges / names (proto3 and proto2, nested, next to extension ranges, `to max`, a message with nothing but reserved numbers); variants: google v2, gogo, golang v1 API with a file per message, google v2 with unsafe decoding, and — for every boolean option found in the generator's source (flags.BoolVar) that these do not cover — google v2 and golang v1 API with a file per message with that option switched on, for the schemas whose generated code the option changes, and gogo with the repeatable option specialname given two, three and six times (ascending, descending, mixed, with repetitions: genpipe.RepeatedShapes) wherever that yields other code than the base variant, plus schemas with two and with all six of Gogo's special field names (coverage: generator_bool_options_discovered, generator_value_options_discovered, generator_option_variants_with_other_code_than_the_base_variant)",
 		append(trustedCommon, "protoc-gen-go / protoc-gen-gogo output and the runtimes' own codecs (used to build values and to read them back, never the generated methods)", "dynamicpb as the reference runtime (schema-only decoding)"),
 		[]string{"packages of the corpus that the generator cannot produce or that do not compile are reported under C16 and excluded here (listed in corpus_packages_excluded)",
 			"map iteration order: bytes are compared up to the order of map entries"})
@@ -154,13 +155,15 @@ func runC16(c *fw.Ctx) int {
 			}
 			c.Count("generate", id, outcome, len(g.Files), true)
 		}
+		tMulti := time.Now()
 		multiFileRequests(c, bc)
+		c.Extra["multi_file_requests_s"] = time.Since(tMulti).Seconds()
 		c.Sample(map[string]interface{}{"stream": "generate", "schemas": len(genpipe.Corpus()), "variants": len(fmVariants) - 1})
 	}
 	if c.Tier == "thorough" {
 		c.LeanChecker("C16")
 	}
-	return c.Finish("generate: the plug-in built from /repo is run through hand-made CodeGeneratorRequests on every schema of the corpus x {google v2, gogo (apiversion=v1, specialname=Size), golang v1 API with filepermessage=true, google v2 with enableunsafedecode=true}: plug-in error, go build of the output together with the runtime's .pb.go, file-name set, and byte comparison of a second run under a different working directory, environment and GOMAXPROCS; requests naming several .proto files (the whole corpus per variant in corpus order and in reverse order, imported files with their own or the same Go package, extensions and shared types on both sides; the two-file requests of the corpus): every file must be what the one-file request for its .proto produced, repeated runs byte-identical; fact: no function of the plug-in writes to a package-level variable; non-trivial = every (schema, variant) pair",
+	return c.Finish("generate: the plug-in built from /repo is run through hand-made CodeGeneratorRequests on every schema of the corpus x {google v2, gogo (apiversion=v1, specialname=Size), golang v1 API with filepermessage=true, google v2 with enableunsafedecode=true, every boolean option found in the generator's source switched on, and — the repeatable value option (flags.Var) specialname — gogo with two, three and all six of the field names Gogo's plug-ins munge (Equal, GoString, MarshalTo, ProtoSize, Size, VerboseEqual) given as separate specialname= tokens in ascending order, in descending order, in an order that is neither, and with one name twice; schemas with two and with all six of these names as fields}: plug-in error, go build of the output together with the runtime's .pb.go, file-name set, and byte comparison of a second run under a different working directory, environment and GOMAXPROCS; requests naming several .proto files (the whole corpus per variant in corpus order and in reverse order, imported files with their own or the same Go package, extensions and shared types on both sides; the two-file requests of the corpus): every file must be what the one-file request for its .proto produced, repeated runs byte-identical; fact: no function of the plug-in writes to a package-level variable; non-trivial = every (schema, variant) pair",
 		append(trustedCommon, "the Go compiler is the oracle for 'valid Go that compiles' (not modelled)"),
 		[]string{"PARTIAL: 'compiles' is established on the corpus by the Go compiler (exploration), not by proof; the Lean part covers the generation plan (naming, routing tables)"})
 }
@@ -236,7 +239,15 @@ func oneFileOutputs(pl *genpipe.Plugins, g *genpipe.Generated) (map[string]strin
 func multiFileRequests(c *fw.Ctx, bc *builtCorpus) {
 	byVariant := map[string][]*genpipe.Generated{}
 	var order []string
-	for _, g := range bc.gens {
+	// (option variants: the schemas for which the option made no difference to the one-file request take part too, in
+	// corpus order — whether it makes a difference after other files is the question here)
+	corpusAt := map[string]int{}
+	for i, s := range genpipe.Corpus() {
+		corpusAt[s.ID] = i
+	}
+	all := append(append([]*genpipe.Generated{}, bc.gens...), bc.sameAsBase...)
+	sort.SliceStable(all, func(i, j int) bool { return corpusAt[all[i].Schema.ID] < corpusAt[all[j].Schema.ID] })
+	for _, g := range all {
 		if !g.Variant.FM || g.GenError != "" || g.Schema.ID == "samename" || g.Schema.ID == "shortnames" {
 			continue
 		}
@@ -248,7 +259,7 @@ func multiFileRequests(c *fw.Ctx, bc *builtCorpus) {
 	version := &pluginpb.Version{Major: proto.Int32(3), Minor: proto.Int32(21), Patch: proto.Int32(0)}
 	for _, vn := range order {
 		gs := byVariant[vn]
-		if len(gs) < 3 {
+		if len(gs) < 3 && !(len(gs) == 2 && gs[0].Variant.Rep != "") {
 			continue
 		}
 		want := map[string]string{}
@@ -314,6 +325,9 @@ func multiFileRequests(c *fw.Ctx, bc *builtCorpus) {
 			procsList := []string{"16", "1", "4", "16", "2", "8"}
 			if pass == 1 {
 				procsList = []string{"16", "1"}
+			}
+			if gs[0].Variant.Rep != "" {
+				procsList = []string{"16"} // (run-to-run determinism of big requests: the fixed variants)
 			}
 			for i, procs := range procsList {
 				cmd := exec.Command(bc.plugins.FastMarshal)
